@@ -14,7 +14,7 @@ cd $WT && git checkout -q -- . && git clean -fdq -e _b
 git -C $WT checkout -q --detach $(git -C /repo rev-parse HEAD)
 echo "== baseline (no patch): build + demo"
 cmake --build $WT/_b -j12 > /tmp/confirm-build.log 2>&1 || { tail -5 /tmp/confirm-build.log; exit 2; }
-( cd $SEED && bash ./demo.sh $WT $WT/_b ) > /tmp/confirm-demo0.log 2>&1; d0=$?
+( cd $SEED && bash ./demo.sh $WT/_b $WT ) > /tmp/confirm-demo0.log 2>&1; d0=$?
 echo "demo without patch: exit $d0"
 echo "== with patch"
 git -C $WT apply $SEED/patch.diff || { echo "patch does not apply"; exit 2; }
@@ -22,7 +22,7 @@ cmake --build $WT/_b -j12 > /tmp/confirm-build.log 2>&1 || { echo "DOES NOT COMP
 ctest --test-dir $WT/_b -j8 --timeout 900 > /tmp/confirm-ctest.log 2>&1
 failed=$(grep -E "^\s+[0-9]+ - " /tmp/confirm-ctest.log | grep -v "test_program_linear\|test_program_quadratic" | tr -s ' ' | tr '\n' ';')
 echo "repo tests failing with patch (flaky program tests ignored): ${failed:-none}"
-( cd $SEED && bash ./demo.sh $WT $WT/_b ) > /tmp/confirm-demo1.log 2>&1; d1=$?
+( cd $SEED && bash ./demo.sh $WT/_b $WT ) > /tmp/confirm-demo1.log 2>&1; d1=$?
 echo "demo with patch: exit $d1"
 ALT=$(cd /verif && VERIF_REPO=$WT python3 -c "import sys;sys.path.insert(0,'tools');import vlib;print(vlib.WORK)")
 rm -rf "$ALT/coq/generated" "$ALT/replays" 2>/dev/null
